@@ -122,6 +122,26 @@ fn op_list(h: &[Op]) -> Value {
     serde_json::to_value(h).unwrap()
 }
 
+/// spell out the `FromItems(code)` operations mentioned in a message
+fn explain_codes(detail: &str) -> String {
+    let mut out = String::new();
+    let mut seen: Vec<u16> = vec![];
+    let mut rest = detail;
+    while let Some(i) = rest.find("FromItems(") {
+        rest = &rest[i + 10..];
+        let num: String = rest.chars().take_while(|c| c.is_ascii_digit()).collect();
+        if let Ok(code) = num.parse::<u16>() {
+            if !seen.contains(&code) {
+                seen.push(code);
+                let (kind, items) = crate::ops::from_items_decode(code);
+                let how = ["collect() of a Vec", "RawLRU::from(Vec)", "RawLRU::from([_; N])", "collect() through filter (size hint (0, n))", "collect() of a chain of two halves", "collect() through take_while over an unbounded source"];
+                out += &format!(" [FromItems({}) = {} of the items {:?} as (key, value version)]", code, how.get(kind as usize).copied().unwrap_or("?"), items);
+            }
+        }
+    }
+    out
+}
+
 pub fn run(prop: &'static str, tier: Tier, seed: u64) -> i32 {
     let t0 = Instant::now();
     let _ = crate::panics::CURRENT_PROP.set(prop.to_string());
@@ -138,7 +158,7 @@ pub fn run(prop: &'static str, tier: Tier, seed: u64) -> i32 {
             let n = per_kind.entry(s.cfg.kind).or_insert(0);
             *n += 1;
             // W-TinyLFU's own property runs every closure on the no_std sketch as well
-            *n <= 2 || prop == "C10"
+            *n <= 2 || prop == "C10" || prop == "C08"
         });
     }
     let mut explores: Vec<Explore> = vec![];
@@ -182,14 +202,33 @@ pub fn run(prop: &'static str, tier: Tier, seed: u64) -> i32 {
             if let Some(r) = crate::miri::report_from_env() {
                 reports.push(r);
             }
+            // memory safety also under unwinding: the hazards the fault engine finds are C03 violations as well
+            let mut r = crate::faults::run_mode(tier, true);
+            for v in r.violations.iter_mut() {
+                v.finding.prop = "C03";
+                v.finding.check = "no_memory_hazard_when_user_code_panics".into();
+            }
+            reports.push(r);
         }
         "C05" => {
             reports.push(crate::grid::run(tier));
             reports.push(crate::lfu::run_tinylfu("C05", tier));
             reports.push(crate::lfu::run_sampled("C05", tier));
         }
-        "C01" | "C06" => reports.push(crate::sweeps::capacity_sweep(tier)),
-        "C08" => reports.push(crate::sweeps::quota_sweep(tier)),
+        "C01" => {
+            reports.push(crate::sweeps::capacity_sweep(tier));
+            reports.push(crate::faults::run_bounds_after_panic(tier));
+        }
+        "C06" | "C07" | "C09" => {
+            reports.push(crate::sweeps::capacity_sweep(tier));
+            reports.push(crate::zst::run(prop, tier));
+        }
+        "C08" => {
+            reports.push(crate::sweeps::quota_sweep(tier));
+            reports.push(crate::sweeps::capacity_sweep(tier));
+            reports.push(crate::zst::run(prop, tier));
+        }
+        "C10" => reports.push(crate::zst::run(prop, tier)),
         "C11" => reports.push(crate::lfu::run_tinylfu("C11", tier)),
         "C12" => reports.push(crate::grid::put_result_structural()),
         "C15" => reports.push(crate::faults::run_callback_consistency(tier)),
@@ -228,7 +267,7 @@ pub fn run(prop: &'static str, tier: Tier, seed: u64) -> i32 {
         let body = json!({"property": f.prop, "check": f.check, "discriminator": f.disc, "signature": sig, "detail": f.detail, "occurrences": count, "build": build_name, "case": case});
         let _ = std::fs::write(&path, serde_json::to_string_pretty(&body).unwrap());
         lines.push(format!("VIOLATION property={} replay={}", f.prop, path));
-        lines.push(format!("  check={} [{}] x{}: {}", f.check, f.disc, count, f.detail));
+        lines.push(format!("  check={} [{}] x{}: {}{}", f.check, f.disc, count, f.detail, explain_codes(&f.detail)));
         *new_violations += 1;
     };
     for (cfg, hashers, v) in &viols {
@@ -324,7 +363,7 @@ pub fn run(prop: &'static str, tier: Tier, seed: u64) -> i32 {
         coverage["exhaustive"] = json!(exhaustive && pi["exhaustive"].as_bool().unwrap_or(false));
         coverage["second_feature_build"] = pi.clone();
         total_violations += pi["violations"].as_i64().unwrap_or(0) as i32;
-    } else if matches!(prop, "C05" | "C10" | "C11") {
+    } else if matches!(prop, "C05" | "C08" | "C10" | "C11") {
         coverage["second_feature_build"] = json!("not run (the no_std build is driven by ./check)");
     }
     let new_violations_total = total_violations;
